@@ -190,9 +190,14 @@ run_exp = Fn(S, 'run_exp', ret='r', pre_rewrites=RW,
         ('C05.inv.run_exp.args', 'args@.len() >= 1'),
         ('C15.inv.run_exp.started', 'lg.started == __i0'),
         ('C15.inv.run_exp.no_failure_so_far', 'no_stop_so_far(*lg)'),
+        ('C11+C15.inv.run_exp.the_results_of_every_statement_are_kept_in_order', 'cr_list@ == g_all'),
     ])},
     ghost_args={'run_exp_while': 'Tracked(&mut lgw)'},
-    hints={'loop-0-body-entry': 'note_start(lg);',
+    hints={'fn-entry': 'RAW: let ghost mut g_all: Seq<CommandResult> = Seq::empty();',
+           'after-call:run_command_line': 'g_all = g_all + _cr_list@;', 'after-call:run_exp_if': 'g_all = g_all + _cr_list@;',
+           'after-call:run_exp_for': 'g_all = g_all + _cr_list@;', 'after-call:run_exp_while': 'g_all = g_all + _cr_list@;',
+           'before-text-all:return (cr_list,': 'LABEL:C11+C15.run_exp.what_is_returned_holds_the_results_of_every_statement_run: assert(cr_list@ == g_all);',
+           'loop-0-body-entry': 'note_start(lg);',
            'before-call:run_exp_while': 'RAW: let tracked mut lgw = new_log();',
            'before-text:if stopped_by_error(sh, &cr_list) {': 'note_check(lg, stop_spec(cr_list@, *sh));'},
 )
@@ -204,8 +209,11 @@ run_exp_while = Fn(S, 'run_exp_while', ret='r', pre_rewrites=RW,
     let_types={'cr_list': 'Vec<CommandResult>'},
     ensures=[('C15.while.no_round_after_a_failing_command_under_set_e', 'nothing_after_stop(*final(lg))')],
     loops={0: Loop(invariant_except_break=[('C15.inv.while.no_failure_so_far', 'no_stop_so_far(*lg)')],
+                   invariant=[('C11+C15.inv.while.the_results_of_every_round_are_kept_in_order', 'cr_list@ == g_all')],
                    ensures=[('C15.while.loop_left_with_nothing_after_a_failure', 'nothing_after_stop(*lg)')])},
-    hints={'loop-0-body-entry': 'note_start(lg);',
+    hints={'fn-entry': 'RAW: let ghost mut g_all: Seq<CommandResult> = Seq::empty();',
+           'after-call:run_exp_test_br': 'g_all = g_all + _cr_list@;',
+           'loop-0-body-entry': 'note_start(lg);',
            'before-text:if !passed || _brk': 'note_check(lg, stop_spec(cr_list@, *sh));'},
 )
 
@@ -217,10 +225,12 @@ run_lines = Fn(S, 'run_lines', ret='r', pre_rewrites=RW,
     let_types={'cr_list': 'Vec<CommandResult>'},
     loop_kinds={0: 'value', (0, 'clone'): 'vx_clone_pair(&{})'},
     ensures=[('C15.lines.no_statement_after_a_failing_command_under_set_e', 'nothing_after_stop(*final(lg))')],
-    loops={0: Loop(invariant=[('C05.inv.lines.args', 'args@.len() >= 1')],
+    loops={0: Loop(invariant=[('C05.inv.lines.args', 'args@.len() >= 1'), ('C11+C15.inv.lines.the_results_of_every_statement_are_kept_in_order', 'cr_list@ == g_all')],
                    invariant_except_break=[('C15.inv.lines.no_failure_so_far', 'no_stop_so_far(*lg)')],
                    ensures=[('C15.lines.loop_left_with_nothing_after_a_failure', 'nothing_after_stop(*lg)')])},
-    hints={'loop-0-body-entry': 'note_start(lg);',
+    hints={'fn-entry': 'RAW: let ghost mut g_all: Seq<CommandResult> = Seq::empty();',
+           'after-call:run_exp': 'g_all = g_all + _cr_list@;',
+           'loop-0-body-entry': 'note_start(lg);',
            'before-call:run_exp': 'RAW: let tracked mut lg2 = new_log();',
            'before-text:if stopped_by_error(sh, &cr_list) {': 'note_check(lg, stop_spec(cr_list@, *sh));'},
 )
@@ -263,10 +273,11 @@ exp_if = Fn(S, 'run_exp_if', rename='run_exp_if_real', ret='r', pre_rewrites=RW,
          'final(il).tried.len() > 0 ==> (r.1 == final(il).tried.last().1 && r.2 == final(il).tried.last().2)'),
     ],
     loops={0: Loop(invariant_except_break=[('C15.inv.if.tried', 'il.tried.len() == __i0 && none_passed(*il)')],
-                   invariant=[('C15.inv.if.flags', 'il.tried.len() <= __v0@.len() && __v0@ == pair_children(pair_if) && (il.tried.len() > 0 ==> (met_continue == il.tried.last().1 && met_break == il.tried.last().2))')],
+                   invariant=[('C11+C15.inv.if.the_results_of_every_branch_tried_are_kept_in_order', 'cr_list@ == g_all'), ('C15.inv.if.flags', 'il.tried.len() <= __v0@.len() && __v0@ == pair_children(pair_if) && (il.tried.len() > 0 ==> (met_continue == il.tried.last().1 && met_break == il.tried.last().2))')],
                    ensures=[('C15.if.loop_left_at_the_end_or_at_the_first_branch_that_passed',
                              'only_the_last_passed(*il) && (il.tried.len() == __v0@.len() || (il.tried.len() > 0 && il.tried.last().0))')])},
-    hints={'after-call:run_exp_test_br': 'note_branch(il, passed, _cont, _brk);'},
+    hints={'fn-entry': 'RAW: let ghost mut g_all: Seq<CommandResult> = Seq::empty();',
+           'after-call:run_exp_test_br': 'note_branch(il, passed, _cont, _brk); g_all = g_all + _cr_list@;'},
 )
 
 exp_for = Fn(S, 'run_exp_for', rename='run_exp_for_real', ret='r',
@@ -276,12 +287,15 @@ exp_for = Fn(S, 'run_exp_for', rename='run_exp_for_real', ret='r',
     let_types={'cr_list': 'Vec<CommandResult>'},
     loop_kinds={0: 'value', (0, 'clone'): 'vx_clone_pair(&{})'},
     ensures=[],
-    loops={0: Loop(invariant=[('C05.inv.for.args', 'args@.len() >= 1')]),
-           1: Loop(invariant=[('C05.inv.for.args_inner', 'args@.len() >= 1')],
+    loops={0: Loop(invariant=[('C05.inv.for.args', 'args@.len() >= 1'), ('C11+C15.inv.for.results_so_far', 'cr_list@ == g_all')]),
+           # the results of every round that was run are in the list, in order -- also of the round that ends the loop
+           1: Loop(invariant=[('C05.inv.for.args_inner', 'args@.len() >= 1'), ('C11+C15.inv.for.the_results_of_every_round_are_kept_in_order', 'cr_list@ == g_all')],
                    invariant_except_break=[('C15.inv.for.rounds_so_far', 'fl.rounds == rounds_of(var_name@, result_list@, __i1 as int) && lgf.started == __i1 && no_stop_so_far(lgf)')],
                    ensures=[('C15.for.loop_left_with_a_prefix_of_the_rounds', 'exists|n: int| 0 <= n <= result_list@.len() && fl.rounds == rounds_of(var_name@, result_list@, n)'),
                             ('C15.for.no_round_after_a_failing_command_under_set_e', 'nothing_after_stop(lgf)')])},
-    hints={'after-text:if rule == Rule::EXP_BODY {': 'RAW: let tracked mut fl = new_forlog(); let tracked mut lgf = new_log();',
+    hints={'fn-entry': 'RAW: let ghost mut g_all: Seq<CommandResult> = Seq::empty();',
+           'after-call:run_exp': 'g_all = g_all + _cr_list@;',
+           'after-text:if rule == Rule::EXP_BODY {': 'RAW: let tracked mut fl = new_forlog(); let tracked mut lgf = new_log();',
            'after-call:get_for_result_list': 'LABEL:C15.for.the_word_list_is_computed_from_the_whole_argument_vector: assert(result_list@ == for_words(pair, args@));',
            'loop-1-body-entry': 'note_start(&mut lgf);',
            'before-call:run_exp': 'RAW: let tracked mut lg2 = new_log();',
